@@ -177,6 +177,58 @@ theorem assignment_evaluates_before_assigning (fo : FloatOps) (n : Nat) (ctx : C
     evals_writeCell cy _ _ ⟨hm.1, hm.2⟩
   exact evals_bind_ok w1 (evals_bind_ok w2 (evals_pure _ _))
 
+/-! ### surplus expressions -/
+
+/-- a `local` declaration evaluates its WHOLE expression list — however many expressions it has, so also those in
+    excess of the names — before it binds anything; the extra values are then thrown away (`adjust`) -/
+theorem local_evaluates_all_expressions (fo : FloatOps) (n : Nat) (ctx : Ctx) (whole : Block) (tail) (base lo i : Nat)
+    (line : Nat) (x : String) (es : List Expr) {s vs s1 res s3} (hm : s1.Main)
+    (hi : whole[i]? = some (.local_ line [(x, .none)] es))
+    (hexprs : Evals ((evalN fo n).exprs { ctx with line := line } es) s (.ok vs) s1)
+    (hrest : Evals ((evalN fo n).stmts { ctx with env := (x, s1.cells.size) :: ctx.env } whole tail base lo (i + 1))
+               { s1 with cells := s1.cells.push (vs.headD .nil) } res s3) :
+    Evals ((evalN fo (n + 1)).stmts ctx whole tail base lo i) s res s3 := by
+  show Evals (stepStmts (evalN fo n) ctx whole tail base lo i) s res s3
+  unfold stepStmts
+  simp only [hi]
+  refine evals_bind_ok hexprs ?_
+  have hb : Evals (bindNames [x] (adjust 1 vs) ctx.env) s1 (.ok ((x, s1.cells.size) :: ctx.env))
+      { s1 with cells := s1.cells.push (vs.headD .nil) } := by
+    unfold bindNames
+    have hv : (adjust 1 vs).headD .nil = vs.headD .nil := by cases vs <;> rfl
+    rw [hv]
+    refine evals_bind_ok (evals_allocCell _ s1 hm) ?_
+    unfold bindNames
+    exact evals_pure _ _
+  refine evals_bind_ok (by simpa using hb) ?_
+  simp only [List.length_cons, List.length_nil, tbcOf]
+  simpa using hrest
+
+/-- an error raised by any expression of the list — a surplus one included — ends the declaration with that
+    error, in the store of that moment; nothing is bound -/
+theorem local_expression_error_propagates (fo : FloatOps) (n : Nat) (ctx : Ctx) (whole : Block) (tail) (base lo i : Nat)
+    (line : Nat) (names : List (String × Attrib)) (es : List Expr) {s e s1}
+    (hi : whole[i]? = some (.local_ line names es))
+    (hexprs : Evals ((evalN fo n).exprs { ctx with line := line } es) s (.error e) s1) :
+    Evals ((evalN fo (n + 1)).stmts ctx whole tail base lo i) s (.error e) s1 := by
+  show Evals (stepStmts (evalN fo n) ctx whole tail base lo i) s _ s1
+  unfold stepStmts
+  simp only [hi]
+  exact evals_bind_err hexprs
+
+/-- the same for an assignment: the right-hand sides are all evaluated (`assignment_order`), so an error in a
+    surplus one prevents every assignment -/
+theorem assign_expression_error_propagates (fo : FloatOps) (n : Nat) (ctx : Ctx) (line : Nat) (x : String) (c : Nat)
+    (es : List Expr) {s e s1} (hx : lookupVar ctx.env x = some c)
+    (hexprs : Evals ((evalN fo n).exprs { ctx with line := line } es) s (.error e) s1) :
+    Evals ((evalN fo (n + 1)).stmt ctx (.assign line [.var x] es)) s (.error e) s1 := by
+  show Evals (stepStmt (evalN fo n) ctx (.assign line [.var x] es)) s _ s1
+  unfold stepStmt
+  have hx' : lookupVar ({ ctx with line := line } : Ctx).env x = some c := hx
+  have ht : Evals ([Expr.var x].mapM (evalTarget (evalN fo n) { ctx with line := line })) s (.ok [LVal.cell c]) s := by
+    simp only [List.mapM_cons, List.mapM_nil, evalTarget, hx']
+    exact evals_bind_ok (evals_pure _ _) (evals_bind_ok (evals_pure _ _) (evals_pure _ _))
+  exact evals_bind_ok ht (evals_bind_err hexprs)
 /-! ### fresh variables per loop iteration, closures -/
 
 /-- a function expression creates a new closure over exactly the cells the current scope binds
@@ -495,5 +547,12 @@ example : (match run default 40 [
     | .done rets _ => rets
     | _ => []) = [.bool true, .bool false] := by decide +kernel
 
+
+/-- `local a = 1, emit("x"); x, y = 1, 2, emit("y"); return a` : both surplus calls happen -/
+example : (match run default 30 [.local_ 1 [("a", .none)] [.int 1#64, .call (.var "emit") [.str "x".toUTF8]],
+             .assign 2 [.var "gx", .var "gy"] [.int 1#64, .int 2#64, .call (.var "emit") [.str "y".toUTF8]],
+             .return_ 3 [.var "a"]] [] with
+           | .done rets s => (rets, s.trace.toList)
+           | _ => ([], [])) = ([.int 1#64], [[.ofString "x"], [.ofString "y"]]) := by decide +kernel
 
 end GoluaVerif.Props.C01
